@@ -131,6 +131,8 @@ func (e *Exec) scanMods(fn *ssa.Function, instrs []ssa.Instruction, ms *modSet, 
 			e.scanCallMods(fn, &x.Call, ms, seen, bind)
 		case *ssa.Defer:
 			e.scanCallMods(fn, &x.Call, ms, seen, bind)
+		case *ssa.MakeChan:
+			ms.comps["G.ghost_closed"] = arraySort(SInt, SBool)
 		case *ssa.Send, *ssa.Select:
 		}
 	}
@@ -150,6 +152,8 @@ func (e *Exec) scanCallMods(fn *ssa.Function, c *ssa.CallCommon, ms *modSet, see
 			mc := e.mapComps(c.Args[0].Type().Underlying().(*types.Map))
 			ms.comps[mc.dom] = arraySort(SInt, mc.domSort)
 			ms.comps[mc.card] = arraySort(SInt, SInt)
+		case "close":
+			ms.comps["G.ghost_closed"] = arraySort(SInt, SBool)
 		}
 		return
 	}
@@ -336,6 +340,14 @@ func (e *Exec) namedLocal(fr *frame, st *State, name string, li *loopInfo) (Valu
 		}
 	}
 	if best == nil {
+		// captured variable of a closure
+		for i, fv := range fr.fn.FreeVars {
+			if fv.Name() == name && i < len(fr.bindings) {
+				if p, ok := fr.bindings[i].(*Ptr); ok {
+					return e.load(st, p), true
+				}
+			}
+		}
 		return nil, false
 	}
 	p := fr.vals[best].(*Ptr)
